@@ -127,7 +127,9 @@ def examine(traj, X, U, m, ctx, what, order):
             ok &= ctx.check(bool(p.min() >= 0 and p.max() < 1), f'{what}: positions outside [0,1): min={p.min()!r} max={p.max()!r}', {'input': X})
             d = geom.circ_diff(p, X)
             # the fractional part of an input coordinate of magnitude |x| is only defined to a few ulp(|x|)
-            tol_in = max(1e-12, 8 * np.finfo(float).eps * float(np.abs(X).max()))
+            # ... and a position that went through the displacement representation is first frame + a running sum of up
+            # to T differences of such coordinates, each rounded at that magnitude
+            tol_in = max(1e-12, (8 + 2 * T) * np.finfo(float).eps * float(np.abs(X).max()))
             ok &= ctx.check(float(d.max()) <= tol_in, f'{what}: positions differ from the input by a non-integer (max circular diff {d.max():.3e})', {'input': X, 'positions': p})
             out['positions'] = p
         elif acc == 'displacements':
